@@ -186,6 +186,20 @@ def monitored_connection_class():
                         or self.__dict__.get('networking_thread') is not cur)
                 self.__dict__['vf_log'].emit(
                     'state.reactor', cls=type(value).__name__, stale=stale)
+            elif name in ('socket', 'file_object') and \
+                    self.__dict__.get('vf_log') is not None:
+                # (who installs a transport object: _connect of the caller's
+                # thread, or a reaction that wraps it for encryption)
+                from minecraft.networking.connection import NetworkingThread
+                cur = threading.current_thread()
+                stale = isinstance(cur, NetworkingThread) and \
+                    bool(cur.interrupt) and (
+                        self.__dict__.get('new_networking_thread') is not None
+                        or self.__dict__.get('networking_thread') is not cur)
+                if stale and value is not None:
+                    self.__dict__['vf_log'].emit(
+                        'state.transport', attr=name,
+                        cls=type(value).__name__, stale=True)
             object.__setattr__(self, name, value)
 
         def _connect(self):
@@ -372,6 +386,27 @@ def thread_cpu_seconds(t):
         return (int(fields[11]) + int(fields[12])) / os.sysconf('SC_CLK_TCK')
     except (OSError, IndexError, ValueError):
         return None
+
+
+def observe_options(conn):
+    """Makes writes to conn.options visible in conn.vf_log (who switches
+    compression on: the connection's own thread, or a thread that has been
+    interrupted and replaced)."""
+    from minecraft.networking.connection import NetworkingThread
+    base = type(conn.options)
+
+    class ObservedOptions(base):
+        def __setattr__(self, name, value):
+            log = conn.__dict__.get('vf_log')
+            cur = threading.current_thread()
+            if log is not None and isinstance(cur, NetworkingThread) and \
+                    bool(cur.interrupt) and (
+                        conn.__dict__.get('new_networking_thread') is not None
+                        or conn.__dict__.get('networking_thread') is not cur):
+                log.emit('state.options', attr=name, value=repr(value),
+                         stale=True)
+            base.__setattr__(self, name, value)
+    conn.options.__class__ = ObservedOptions
 
 
 class SteppingClock(object):
